@@ -315,9 +315,111 @@ def declare_paths(e):
         return [(s, Val(INT, f(base.t)))]
     e.attr_models[("Stat", "st_size")] = a_size
 
+    import reuse.vcs as _vcs
+    reg.declare("ref", "VCSStrategyGit", fields={"root": "Path", "_all_ignored_files": "set[Path]", "_submodules": "set[Path]"},
+                pyclass=_vcs.VCSStrategyGit)
+
     def m_vcs(eng, s, recv, name, args, kw, node):
         if name not in ("is_ignored", "is_submodule"):
             raise Unsupported(f"VCS.{name}")
         f = eng.uf("vcs_" + name, [reg.sort(TAbs("VCS")), P], z3.BoolSort())
         return [(s, Val(BOOL, f(recv.t, eng.coerce(args[0], TAbs("Path")).t)))]
     e.method_models[("VCS", "*")] = m_vcs
+
+
+def declare_project(e):
+    """Models for Project.reuse_info_of: defaultdict, is_binary, the global-licensing object, ReuseInfo helpers."""
+    import collections
+    import reuse
+    from binaryornot.check import is_binary
+    reg = e.reg
+    GL = reg.sort(TAbs("GlobalLicensing"))
+    P = reg.sort(TAbs("Path"))
+    dd_ty = reg.parse("defaultdict[PrecedenceType, list[ReuseInfo]]")
+
+    def m_defaultdict(eng, s, args, kw, node):
+        if len(args) == 1:
+            return [(s, Val(dd_ty, eng.empty_dict(*dd_ty.args).t))]
+        return [(s, eng.coerce(args[1], dd_ty))]
+    e.func_models[collections.defaultdict] = m_defaultdict
+
+    def m_is_binary(eng, s, args, kw, node):
+        f = eng.uf("ghost_is_binary", [z3.StringSort()], z3.BoolSort())
+        return [(s, Val(BOOL, f(args[0].t)))]
+    e.func_models[is_binary] = m_is_binary
+
+    def m_gl(eng, s, recv, name, args, kw, node):
+        if name != "reuse_info_of":
+            raise Unsupported(f"GlobalLicensing.{name}")
+        f = eng.uf("ghost_global_infos", [GL, P], reg.sort(reg.parse("dict[PrecedenceType, list[ReuseInfo]]")))
+        return [(s, Val(reg.parse("dict[PrecedenceType, list[ReuseInfo]]"), f(recv.t, eng.coerce(args[0], TAbs("Path")).t)))]
+    e.method_models[("GlobalLicensing", "*")] = m_gl
+
+    def a_dict(eng, s, base, node):
+        return [(s, py({f: eng.read_field(s, base, f) for f in reg.fields["ReuseInfo"]}))]
+    e.attr_models[("ReuseInfo", "__dict__")] = a_dict
+
+    def a_class(eng, s, base, node):
+        return [(s, py(reuse.ReuseInfo))]
+    e.attr_models[("ReuseInfo", "__class__")] = a_class
+    for m in ("copy", "_check_nonexistent", "union", "contains_copyright_or_licensing", "contains_copyright_xor_licensing",
+              "contains_info", "__or__", "__bool__"):
+        e.inline_ok.add(f"reuse.ReuseInfo.{m}")
+
+    # str(path) for paths: injective uninterpreted rendering
+    def path_to_str(eng, v, ty):
+        f = eng.uf("str_of_Path", [P], z3.StringSort())
+        return Val(STR, f(v.t))
+    e.coerce_hooks[("abs", "str")] = path_to_str
+
+
+def declare_toml(e):
+    """REUSE.toml object model: AnnotationsItem is abstract (its matcher is C05's obligation), ReuseTOML and
+    NestedReuseTOML are value records generated from the real attrs classes."""
+    import attrs
+    import reuse.global_licensing as gl
+    reg = e.reg
+    P = reg.sort(TAbs("Path"))
+    reg.declare("abs", "AnnotationsItem")
+    A = reg.sort(TAbs("AnnotationsItem"))
+
+    def item_attr(name, ty):
+        def model(eng, s, base, node):
+            f = eng.uf("item_" + name, [A], reg.sort(reg.parse(ty)))
+            return [(s, Val(reg.parse(ty), f(base.t)))]
+        return model
+    e.attr_models[("AnnotationsItem", "precedence")] = item_attr("precedence", "PrecedenceType")
+    e.attr_models[("AnnotationsItem", "copyright_lines")] = item_attr("copyright_lines", "set[str]")
+    e.attr_models[("AnnotationsItem", "spdx_expressions")] = item_attr("spdx_expressions", "set[Expr]")
+
+    def m_item(eng, s, recv, name, args, kw, node):
+        if name != "matches":
+            raise Unsupported(f"AnnotationsItem.{name}")
+        f = eng.uf("ghost_item_matches", [A, z3.StringSort()], z3.BoolSort())
+        return [(s, Val(BOOL, f(recv.t, eng.coerce(args[0], STR).t)))]
+    e.method_models[("AnnotationsItem", "*")] = m_item
+    reg.declare("data", "ReuseTOML", fields={"source": "str", "version": "int", "annotations": "list[AnnotationsItem]"},
+                pyclass=gl.ReuseTOML)
+    reg.declare("data", "NestedReuseTOML", fields={"source": "str", "reuse_tomls": "list[ReuseTOML]"}, pyclass=gl.NestedReuseTOML)
+
+    def m_as_posix(eng, s, recv, name, args, kw, node):
+        return [(s, Val(STR, eng.uf("ghost_as_posix", [P], z3.StringSort())(recv.t)))]
+    e.method_models[("Path", "as_posix")] = m_as_posix
+
+    def m_relative_to(eng, s, recv, name, args, kw, node):
+        other = eng.coerce(args[0], TAbs("Path"))
+        ok_ = eng.uf("path_is_relative_to", [P, P], z3.BoolSort())(recv.t, other.t)
+        if not eng.spec_mode:
+            good, bad = eng.branch(s, ok_, "relative_to")
+            if bad is not None:
+                eng.raise_(bad, ValueError, where=node)
+            if good is None:
+                return []
+            s = good
+        return [(s, Val(TAbs("Path"), eng.uf("ghost_relative_to", [P, P], P)(recv.t, other.t)))]
+    e.method_models[("Path", "relative_to")] = m_relative_to
+
+    def path_div(eng, s, a, b, node):
+        b = eng.coerce(b, TAbs("Path"))
+        return [(s, Val(TAbs("Path"), eng.uf("ghost_path_join", [P, P], P)(a.t, b.t)))]
+    e.binop_models[("/", "Path")] = path_div
